@@ -227,6 +227,7 @@ type runner[C any] struct {
 	lastFailViol []Violation
 	sampleByCls  map[string]int
 	samplePhase  map[string]int
+	shown        int
 }
 
 func hashKey(s string) uint64 {
@@ -461,6 +462,11 @@ func (r *runner[C]) evalFrom(c C, phase, file string) []Violation {
 	}
 	if o.OutOfClaim != "" {
 		r.p.OutOfClaim[o.OutOfClaim]++
+		if show := os.Getenv("VERIF_SHOW_OOC"); show != "" && strings.Contains(o.OutOfClaim, show) && r.shown < 3 {
+			r.shown++
+			b, _ := json.Marshal(c)
+			fmt.Printf("OOC-CASE %s: %s\n", o.OutOfClaim, b)
+		}
 		return nil
 	}
 	var bad []Violation
